@@ -91,6 +91,8 @@ HANDWRITTEN = [
     ('udiv-zero-init', 'unsigned a = 5u / 0u;\n'), ('urem-zero-enum', 'enum { E = 7u % 0u };\n'), ('udiv-zero-array', 'char b[sizeof(int) / 0];\n'),
     ('urem-zero-case', 'int f(int v) { switch (v) { case 1ul % 0: return 1; } return 0; }\n'), ('udiv-zero-bitfield', 'struct s { int a : 8u / 0u; };\n'),
     ('udiv-zero-assert', '_Static_assert(1ull / 0ull, "");\n'), ('udiv-zero-local', 'unsigned f(void) { return 5u / 0u + 7u % 0u; }\n'),
+    ('T:va-copy', 'int f(int n, ...) { __builtin_va_list a, b; __builtin_va_start(a, n); __builtin_va_copy(b, a); int x = __builtin_va_arg(a, int) + __builtin_va_arg(b, int) + __builtin_va_arg(b, long); __builtin_va_end(a); __builtin_va_end(b); return x; }\n'
+                  'int g(int n, __builtin_va_list src) { __builtin_va_list c; __builtin_va_copy(c, src); n += __builtin_va_arg(c, int); __builtin_va_end(c); return n; }\n'),
     ('T:va-list-braced', 'void f(void) { __builtin_va_list ap = { 0 }; }\n'), ('T:va-list-member', 'struct s { int a; __builtin_va_list ap; int b; } x = { 1, 2, 3 };\n'),
     ('T:va-list-designated', 'struct s { int a; __builtin_va_list ap; } x = { .ap = { 0 } };\n'), ('T:va-list-empty', '__builtin_va_list g = { }; void f(void) { __builtin_va_list ap = { }; }\n'),
     ('T:char-escapes', "int a['\\xff' > 0 ? 1 : 2]; int b = '\\377' >> 1; char c = '\\x80';\n"),
